@@ -13,9 +13,11 @@ use proc_macro2::TokenStream;
 use quote::{format_ident, quote};
 
 use super::common::{safe_ident, CodegenGrammar, CodegenRule, CodegenSettings};
+use super::include_rule::check_include_cycles;
 
 impl CodegenGrammar for Grammar {
     fn generate_code(&self, settings: &CodegenSettings) -> Result<TokenStream> {
+        check_include_cycles(self)?;
         let mut all_types = TokenStream::new();
         let mut all_parsers = TokenStream::new();
         let mut all_impls = TokenStream::new();
